@@ -347,6 +347,8 @@ impl<T: RealNumber> DecisionTreeClassifier<T> {
         parameters: DecisionTreeClassifierParameters,
         rng: &mut impl Rng,
     ) -> Result<DecisionTreeClassifier<T>, Failed> {
+        #[cfg(smartcore_verif)]
+        crate::verif::tree_fit_samples(&samples);
         let y_m = M::from_row_vector(y.clone());
         let (_, y_ncols) = y_m.shape();
         let (_, num_attributes) = x.shape();
